@@ -179,3 +179,63 @@ Proof.
            cidJ llJ ritsJ rows H0 HfA HfB HgA HgB Hc Hr Hi HfJ).
 Qed.
 Print Assumptions C01_rejoin_descends_from_one_frame.
+
+(* ... and not only what is handed out: at EVERY reachable state of the receiver, inside a recv() call, whatever a synchronized
+   source is holding - a complete set waiting for the other sources, or half a set - was published under the one id the call
+   is assembling, and came from that source.  (Oracle counterpart: corr_proto 'held-set:mixed-ids'.) *)
+Theorem C01_held_sets_one_id :
+  forall cid low_latency cs its st' o,
+    rrun Repaired (init_receiver cid false low_latency cs) its = (st', o) ->
+    forall f, (control st' = InP1 f \/ control st' = InP2 f) ->
+    forall i s, nth_error (srcs st') i = Some s -> sc_eph (cfg s) = 0 ->
+    forall d t sm, recvd s = Some d -> In (t, Some sm) d -> st_mid sm = f_min f /\ st_src sm = i.
+Proof.
+  intros cid ll cs its st' o E f Hc i s Hn He d t sm Hr Hin.
+  destruct (rrun_inv_nb _ _ _ _ E eq_refl (Inv_init _ _ _ _)) as (I & _).
+  unfold Inv in I.
+  assert (H : SrcOk (srcs st') /\ J (f_min f) (srcs st')) by (destruct Hc as [Hc|Hc]; rewrite Hc in I; exact I).
+  destruct H as [HS HJ]. split.
+  - exact (HJ i s Hn He d Hr t sm Hin).
+  - exact (HS i s Hn d Hr t sm Hin).
+Qed.
+Print Assumptions C01_held_sets_one_id.
+
+(* The same for '?' / '??' sources, which keep an id of their own: inside a returned set the frames that came from one ephemeral
+   source were all published under one id - for every configuration and every input sequence, the publisher's CLOSE and a
+   restarted publisher (under whatever name, starting at whatever id) included.  And at every reachable state what an ephemeral
+   source is holding is of the id that source is at.  (Non-balanced receiver, repaired code; the pinned code kept half a set
+   across a CLOSE: corpus histories W4/W6/W7.) *)
+From OF Require Import Proto.Receiver_EphOne.
+Theorem C01_no_mixed_ids_ephemeral :
+  forall cid low_latency cs its data id bal,
+    In (ORet data id bal) (snd (rrun Repaired (init_receiver cid false low_latency cs) its)) ->
+    forall t sm t' sm', In (t, sm) data -> In (t', sm') data -> st_src sm = st_src sm' ->
+    forall c, nth_error cs (st_src sm) = Some c -> sc_eph c <> 0 -> st_mid sm = st_mid sm'.
+Proof.
+  intros cid ll cs its data id bal Hin.
+  pose proof (receiver_eph_one_id cid ll cs its) as H. rewrite Forall_forall in H. exact (H _ Hin).
+Qed.
+Print Assumptions C01_no_mixed_ids_ephemeral.
+
+Theorem C01_held_ephemeral_sets_one_id :
+  forall cid low_latency cs its i s,
+    nth_error (srcs (fst (rrun Repaired (init_receiver cid false low_latency cs) its))) i = Some s ->
+    sc_eph (cfg s) <> 0 -> forall d t sm, recvd s = Some d -> In (t, Some sm) d -> st_mid sm = min_recv s.
+Proof. exact receiver_eph_held_one_id. Qed.
+Print Assumptions C01_held_ephemeral_sets_one_id.
+
+(* the history of corpus W7 in the model: half a set of id 3 is held ('b'), the publisher says CLOSE and comes back under the same
+   name at id 0 - the set handed over is the new incarnation's, both frames of id 0 *)
+Example C01_ephemeral_restart_example :
+  let M := fun wt mid pay => {| w_wtopic := wt; w_sid := 10; w_mid := mid; w_topics := [[97]; [98]]; w_bal := 0; w_pay := pay |} in
+  let its := [ICall None None 0;
+              IDeliver 0 (M [47; 98; 47] 3 1); IPoll [0%nat] 0;
+              IDeliver 0 {| w_wtopic := [47; 47]; w_sid := 10; w_mid := -3; w_topics := []; w_bal := 0; w_pay := 0 |};
+              IDeliver 0 (M [47; 97; 47] 0 2); IDeliver 0 (M [47; 98; 47] 0 3);
+              IPoll [0%nat] 0; IPoll [0%nat] 0; IPoll [0%nat] 0; IPoll [] 0] in
+  let o := snd (rrun Repaired (init_receiver 7 false false
+                  [{| sc_eph := 1; sc_mode := SubExplicit [([97], [97]); ([98], [98])]; sc_uid := 0 |}]) its) in
+  last o (OPoll None) =
+    ORet [([97], {| st_pay := 2; st_mid := 0; st_src := 0; st_topic := [97] |});
+          ([98], {| st_pay := 3; st_mid := 0; st_src := 0; st_topic := [98] |})] 0 0.
+Proof. vm_compute. reflexivity. Qed.
